@@ -2,6 +2,7 @@
    Decoders and window code are the go2coq translation from this run, with
    run-time panics explicit (constructor Panic). *)
 From LNC Require Import GoLite MessagesGen MsgDataGen QueueGen Codec Gbn Window Totality GbnInv GbnSafety.
+From LNC Require Import SyncerGen SyncerProofs.
 Open Scope Z_scope.
 
 (* every byte string, any length, any values *)
@@ -40,6 +41,17 @@ Print Assumptions c07_nack_in_range.
 Theorem c07_data_phase_total : forall st ev, Inv st -> dstep st ev <> DPanic.
 Proof. exact dstep_no_panic. Qed.
 Print Assumptions c07_data_phase_total.
+
+(* the resend bookkeeping (gbn/syncer.go initResendUpTo, translated this run) divides by the size of the sequence
+   space s = n + 1: total for every non-empty space and every top, a panic for s = 0, which is what a proposed
+   window of 255 would produce in uint8 (the handshake refuses it: C10's window theorems, hostile-SYN scenarios) *)
+Theorem c07_resend_bookkeeping_total : forall c top, syncer_s c <> 0 -> syncer_initResendUpTo c top <> Panic.
+Proof. exact initResendUpTo_total. Qed.
+Print Assumptions c07_resend_bookkeeping_total.
+
+Theorem c07_empty_sequence_space_would_panic : forall c top, syncer_s c = 0 -> syncer_initResendUpTo c top = Panic.
+Proof. exact initResendUpTo_empty_space_panics. Qed.
+Print Assumptions c07_empty_sequence_space_would_panic.
 
 Example c07_ex_short_data : Deserialize [2; 0; 1] = Ok None /\ Deserialize [2] = Ok None /\ Deserialize [] = Ok None.
 Proof. repeat split; reflexivity. Qed.
